@@ -1,0 +1,13 @@
+//go:build !verif
+
+// Package vhook provides named no-op points that verification tooling can
+// intercept when built with the "verif" build tag. Without the tag every
+// function here is empty and is inlined away.
+package vhook
+
+// Point marks a named location between two steps of an operation.
+func Point(name string) {}
+
+// Rate returns the flush rate to use; without the verif tag it is the
+// measured rate.
+func Rate(measured float64) float64 { return measured }
